@@ -1,14 +1,38 @@
 import GenjaxModel.Proofs.DistSpec
+import GenjaxModel.Proofs.DistSpec2
+import GenjaxModel.Proofs.DistSpec3
+import GenjaxModel.Proofs.DistSpec4
+import GenjaxModel.Proofs.DistSpec5
 /-!
 # C13 — distributions: documented parameters, normalised density, matching sampler
 
-Partial. `Proofs/DistSpec.lean` states the documented parameterisation of ten of the 24 built-in
-distributions as real-valued mass / density functions (flip takes a probability, bernoulli and
-categorical logits, geometric counts failures, exponential a rate, …) and proves that each
-normalises to 1 over its support, for every parameter value in the domain. The remaining
-distributions, and for all 24 the agreement of `logpdf` with the documented formula and of the
-sampler with that density, are established by the correspondence run only (closed forms / scipy,
-KS and chi-square at α = 1e-6): sampler ↔ density is statistical support; TFP is trusted.
+Partial: the DENSITY side (documented closed form, total mass one on the documented parameter
+domain, parameter-pinning lemmas, non-negativity) is formalised for all 24 exported distributions;
+the agreement of `logpdf` with the documented formula and of the sampler with that density is NOT
+a Lean theorem — it is established by the correspondence run only (closed forms / scipy, KS and
+chi-square at α = 1e-6): sampler ↔ density is statistical support; TFP is trusted.
+
+The Proofs files state the DOCUMENTED parameterisation of each built-in distribution as a
+real-valued mass / density function (parameters in the documented order) and prove that it
+normalises to 1 over its support for every parameter value in the documented domain, together with
+lemmas that pin the parameterisation (rate vs scale, covariance vs scale, which outcome is counted,
+special cases) and non-negativity (so the `ENNReal.ofReal` in the statements clips nothing).
+
+Formalised (closed form + total mass one), by file:
+* `Proofs/DistSpec.lean`  — flip(p), bernoulli(logits), categorical(logits), geometric(probs)
+  [failures before the first success], poisson(rate), binomial(total_count, probs),
+  exponential(rate), uniform(low, high), normal(loc, scale).
+* `Proofs/DistSpec2.lean` — gamma(concentration, rate), chi2(df), beta(concentration1,
+  concentration0), cauchy(loc, scale), laplace(loc, scale), log_normal(loc, scale),
+  half_normal(scale), inverse_gamma(concentration, scale), weibull(concentration, scale),
+  student_t(df, loc, scale).
+* `Proofs/DistSpec3.lean` — negative_binomial(total_count r > 0 real, probs) [successes before the
+  r-th failure], multinomial(total_count, probs), zipf(power).
+* `Proofs/DistSpec4.lean` — multivariate_normal(loc, covariance_matrix): any dimension, any
+  positive definite covariance.
+* `Proofs/DistSpec5.lean` — dirichlet(concentration): any number of components.
+Not formalised as densities: none of the 24.  (bernoulli / geometric / binomial / multinomial /
+negative_binomial are formalised for ONE of their alternative parameterisations — the one listed.)
 -/
 namespace Genjax.DistSpec
 open MeasureTheory
@@ -43,5 +67,240 @@ theorem C13_uniform_normalised (a b : ℝ) (hab : a < b) :
 
 theorem C13_normal_normalised (μ σ : ℝ) (hσ : 0 < σ) :
     ∫⁻ x, ENNReal.ofReal (normalPdf μ σ x) = 1 := normal_normalised μ σ hσ
+
+
+/-! ## Part 2: further continuous distributions (Proofs/DistSpec2.lean) -/
+
+/-- gamma(concentration α, rate β): β^α/Γ(α) x^{α−1} e^{−βx} on x > 0 has total mass one -/
+theorem C13_gamma_normalised (a r : ℝ) (ha : 0 < a) (hr : 0 < r) :
+    ∫⁻ x, ENNReal.ofReal (gammaPdf a r x) = 1 := gamma_normalised a r ha hr
+example : ∫⁻ x, ENNReal.ofReal (gammaPdf 2 (3 / 2) x) = 1 :=
+  C13_gamma_normalised 2 (3 / 2) (by norm_num) (by norm_num)
+
+/-- the second gamma parameter is a RATE: X ~ gamma(α, β) iff βX ~ gamma(α, 1) -/
+theorem C13_gamma_param_rate (a r x : ℝ) (hr : 0 < r) :
+    gammaPdf a r x = r * gammaPdf a 1 (r * x) := gamma_rate_scaling a r x hr
+
+theorem C13_gamma_nonneg (a r x : ℝ) (ha : 0 < a) (hr : 0 < r) : 0 ≤ gammaPdf a r x :=
+  gammaPdf_nonneg a r x ha hr
+
+/-- chi2(df k): 1/(2^{k/2} Γ(k/2)) x^{k/2−1} e^{−x/2} on x > 0 has total mass one -/
+theorem C13_chi2_normalised (k : ℝ) (hk : 0 < k) :
+    ∫⁻ x, ENNReal.ofReal (chi2Pdf k x) = 1 := chi2_normalised k hk
+example : ∫⁻ x, ENNReal.ofReal (chi2Pdf 3 x) = 1 := C13_chi2_normalised 3 (by norm_num)
+
+/-- chi2(k) = gamma(k/2, rate 1/2) -/
+theorem C13_chi2_param_gamma (k x : ℝ) : chi2Pdf k x = gammaPdf (k / 2) (1 / 2) x :=
+  chi2_eq_gamma k x
+
+theorem C13_chi2_nonneg (k x : ℝ) (hk : 0 < k) : 0 ≤ chi2Pdf k x := chi2Pdf_nonneg k x hk
+
+/-- beta(concentration1 α, concentration0 β): Γ(α+β)/(Γ(α)Γ(β)) x^{α−1}(1−x)^{β−1} on (0,1) -/
+theorem C13_beta_normalised (a b : ℝ) (ha : 0 < a) (hb : 0 < b) :
+    ∫⁻ x, ENNReal.ofReal (betaPdf a b x) = 1 := beta_normalised a b ha hb
+example : ∫⁻ x, ENNReal.ofReal (betaPdf (7 / 10) 2 x) = 1 :=
+  C13_beta_normalised (7 / 10) 2 (by norm_num) (by norm_num)
+
+/-- the first parameter (concentration1) belongs to `x`, the second (concentration0) to `1 − x` -/
+theorem C13_beta_param_swap (a b x : ℝ) : betaPdf a b x = betaPdf b a (1 - x) := beta_swap a b x
+
+theorem C13_beta_nonneg (a b x : ℝ) (ha : 0 < a) (hb : 0 < b) : 0 ≤ betaPdf a b x :=
+  betaPdf_nonneg a b x ha hb
+
+/-- cauchy(loc x₀, scale γ): 1/(πγ(1+((x−x₀)/γ)²)) -/
+theorem C13_cauchy_normalised (x₀ γ : ℝ) (hγ : 0 < γ) :
+    ∫⁻ x, ENNReal.ofReal (cauchyPdf x₀ γ x) = 1 := cauchy_normalised x₀ γ hγ
+example : ∫⁻ x, ENNReal.ofReal (cauchyPdf (3 / 10) (4 / 5) x) = 1 :=
+  C13_cauchy_normalised _ _ (by norm_num)
+
+theorem C13_cauchy_param_loc_scale (x₀ γ x : ℝ) :
+    cauchyPdf x₀ γ x = 1 / γ * cauchyPdf 0 1 ((x - x₀) / γ) := cauchy_loc_scale x₀ γ x
+
+theorem C13_cauchy_nonneg (x₀ γ x : ℝ) (hγ : 0 < γ) : 0 ≤ cauchyPdf x₀ γ x :=
+  cauchyPdf_nonneg x₀ γ x hγ
+
+/-- laplace(loc μ, scale b): 1/(2b) e^{−|x−μ|/b} -/
+theorem C13_laplace_normalised (μ b : ℝ) (hb : 0 < b) :
+    ∫⁻ x, ENNReal.ofReal (laplacePdf μ b x) = 1 := laplace_normalised μ b hb
+example : ∫⁻ x, ENNReal.ofReal (laplacePdf (1 / 2) (6 / 5) x) = 1 :=
+  C13_laplace_normalised _ _ (by norm_num)
+
+/-- laplace takes a scale (not a rate) -/
+theorem C13_laplace_param_loc_scale (μ b x : ℝ) (hb : 0 < b) :
+    laplacePdf μ b x = 1 / b * laplacePdf 0 1 ((x - μ) / b) := laplace_loc_scale μ b x hb
+
+theorem C13_laplace_nonneg (μ b x : ℝ) (hb : 0 < b) : 0 ≤ laplacePdf μ b x :=
+  laplacePdf_nonneg μ b x hb
+
+/-- log_normal(loc μ, scale σ): 1/(xσ√(2π)) e^{−(ln x−μ)²/(2σ²)} on x > 0 -/
+theorem C13_log_normal_normalised (μ σ : ℝ) (hσ : 0 < σ) :
+    ∫⁻ x, ENNReal.ofReal (logNormalPdf μ σ x) = 1 := logNormal_normalised μ σ hσ
+example : ∫⁻ x, ENNReal.ofReal (logNormalPdf (1 / 5) (3 / 5) x) = 1 :=
+  C13_log_normal_normalised _ _ (by norm_num)
+
+/-- loc and scale are those of the underlying normal: density of exp(Y), Y ~ normal(μ, σ) -/
+theorem C13_log_normal_param_log (μ σ x : ℝ) (hσ : 0 < σ) (hx : 0 < x) :
+    logNormalPdf μ σ x = normalPdf μ σ (Real.log x) / x := logNormal_eq_normal_log μ σ x hσ hx
+
+theorem C13_log_normal_nonneg (μ σ x : ℝ) (hσ : 0 < σ) : 0 ≤ logNormalPdf μ σ x :=
+  logNormalPdf_nonneg μ σ x hσ
+
+/-- half_normal(scale σ): √2/(σ√π) e^{−x²/(2σ²)} on x ≥ 0 -/
+theorem C13_half_normal_normalised (σ : ℝ) (hσ : 0 < σ) :
+    ∫⁻ x, ENNReal.ofReal (halfNormalPdf σ x) = 1 := halfNormal_normalised σ hσ
+example : ∫⁻ x, ENNReal.ofReal (halfNormalPdf (13 / 10) x) = 1 :=
+  C13_half_normal_normalised _ (by norm_num)
+
+/-- the scale is the standard deviation of the underlying normal: |Y|, Y ~ normal(0, σ) -/
+theorem C13_half_normal_param_normal (σ x : ℝ) (hσ : 0 < σ) (hx : 0 ≤ x) :
+    halfNormalPdf σ x = 2 * normalPdf 0 σ x := halfNormal_eq_two_mul_normal σ x hσ hx
+
+theorem C13_half_normal_nonneg (σ x : ℝ) (hσ : 0 < σ) : 0 ≤ halfNormalPdf σ x :=
+  halfNormalPdf_nonneg σ x hσ
+
+/-- inverse_gamma(concentration α, scale β): β^α/Γ(α) x^{−α−1} e^{−β/x} on x > 0 -/
+theorem C13_inverse_gamma_normalised (a b : ℝ) (ha : 0 < a) (hb : 0 < b) :
+    ∫⁻ x, ENNReal.ofReal (inverseGammaPdf a b x) = 1 := inverseGamma_normalised a b ha hb
+example : ∫⁻ x, ENNReal.ofReal (inverseGammaPdf 3 2 x) = 1 :=
+  C13_inverse_gamma_normalised 3 2 (by norm_num) (by norm_num)
+
+/-- density of 1/Y for Y ~ gamma(α, rate β): the second parameter is a SCALE of the inverse gamma -/
+theorem C13_inverse_gamma_param_gamma (a b x : ℝ) (hx : 0 < x) :
+    inverseGammaPdf a b x = gammaPdf a b (1 / x) / x ^ 2 := inverseGamma_eq_gamma_inv a b x hx
+
+theorem C13_inverse_gamma_nonneg (a b x : ℝ) (ha : 0 < a) (hb : 0 < b) :
+    0 ≤ inverseGammaPdf a b x := inverseGammaPdf_nonneg a b x ha hb
+
+/-- weibull(concentration k, scale λ): (k/λ)(x/λ)^{k−1} e^{−(x/λ)^k} on x ≥ 0 -/
+theorem C13_weibull_normalised (k l : ℝ) (hk : 0 < k) (hl : 0 < l) :
+    ∫⁻ x, ENNReal.ofReal (weibullPdf k l x) = 1 := weibull_normalised k l hk hl
+example : ∫⁻ x, ENNReal.ofReal (weibullPdf (3 / 2) 2 x) = 1 :=
+  C13_weibull_normalised _ _ (by norm_num) (by norm_num)
+
+/-- the second parameter is a SCALE: weibull(1, λ) = exponential(rate 1/λ) -/
+theorem C13_weibull_param_exponential (l x : ℝ) :
+    weibullPdf 1 l x = exponentialPdf (1 / l) x := weibull_one_eq_exponential l x
+
+theorem C13_weibull_nonneg (k l x : ℝ) (hk : 0 < k) (hl : 0 < l) : 0 ≤ weibullPdf k l x :=
+  weibullPdf_nonneg k l x hk hl
+
+/-- student_t(df ν, loc μ, scale σ):
+Γ((ν+1)/2)/(Γ(ν/2)√(νπ)σ) (1+((x−μ)/σ)²/ν)^{−(ν+1)/2} -/
+theorem C13_student_t_normalised (ν μ σ : ℝ) (hν : 0 < ν) (hσ : 0 < σ) :
+    ∫⁻ x, ENNReal.ofReal (studentTPdf ν μ σ x) = 1 := studentT_normalised ν μ σ hν hσ
+example : ∫⁻ x, ENNReal.ofReal (studentTPdf 4 (1 / 2) (3 / 2) x) = 1 :=
+  C13_student_t_normalised _ _ _ (by norm_num) (by norm_num)
+
+/-- parameter order (df, loc, scale): X = μ + σT with T standard Student t(ν) -/
+theorem C13_student_t_param_loc_scale (ν μ σ x : ℝ) :
+    studentTPdf ν μ σ x = 1 / σ * studentTStd ν ((x - μ) / σ) := studentT_eq_std ν μ σ x
+
+/-- ν = 1 is cauchy(loc, scale) -/
+theorem C13_student_t_param_cauchy (μ σ x : ℝ) : studentTPdf 1 μ σ x = cauchyPdf μ σ x :=
+  studentT_one_eq_cauchy μ σ x
+
+theorem C13_student_t_nonneg (ν μ σ x : ℝ) (hν : 0 < ν) (hσ : 0 < σ) :
+    0 ≤ studentTPdf ν μ σ x := studentTPdf_nonneg ν μ σ x hν hσ
+
+/-- normal takes a standard deviation (scale), not a variance -/
+theorem C13_normal_param_loc_scale (μ σ x : ℝ) (hσ : 0 < σ) :
+    normalPdf μ σ x = 1 / σ * normalPdf 0 1 ((x - μ) / σ) := normal_loc_scale μ σ x hσ
+
+/-! ## Part 3: further discrete distributions (Proofs/DistSpec3.lean) -/
+
+/-- negative_binomial(total_count r, probs p): P(k) = C(k+r−1, k) p^k (1−p)^r — the number of
+successes (probability p) before the r-th failure; r any real (documented: r > 0), 0 ≤ p < 1 -/
+theorem C13_negative_binomial_normalised (r p : ℝ) (hp0 : 0 ≤ p) (hp1 : p < 1) :
+    HasSum (negativeBinomialPmf r p) 1 := negativeBinomial_normalised r p hp0 hp1
+example : HasSum (negativeBinomialPmf 3 (2 / 5)) 1 :=
+  C13_negative_binomial_normalised 3 (2 / 5) (by norm_num) (by norm_num)
+
+/-- integer total_count: the ordinary binomial coefficient C(k+r−1, k) -/
+theorem C13_negative_binomial_param_nat (r : ℕ) (hr : 0 < r) (p : ℝ) (k : ℕ) :
+    negativeBinomialPmf r p k = ((k + r - 1).choose k : ℝ) * p ^ k * (1 - p) ^ r :=
+  negativeBinomial_nat r hr p k
+
+/-- the Γ form evaluated by TFP: Γ(k+r)/(k! Γ(r)) p^k (1−p)^r -/
+theorem C13_negative_binomial_param_Gamma (r p : ℝ) (hr : 0 < r) (k : ℕ) :
+    negativeBinomialPmf r p k =
+      Real.Gamma (k + r) / (k.factorial * Real.Gamma r) * p ^ k * (1 - p) ^ r :=
+  negativeBinomial_eq_Gamma r p hr k
+
+theorem C13_negative_binomial_nonneg (r p : ℝ) (hr : 0 < r) (hp0 : 0 ≤ p) (hp1 : p < 1) (k : ℕ) :
+    0 ≤ negativeBinomialPmf r p k := negativeBinomialPmf_nonneg r p hr hp0 hp1 k
+
+/-- multinomial(total_count n, probs p): n!/(k₁!…k_m!) ∏ p_i^{k_i} on count vectors adding up to n
+(zero elsewhere) has total mass one over ALL count vectors -/
+theorem C13_multinomial_normalised {m : ℕ} (n : ℕ) (p : Fin m → ℝ) (hp : ∑ i, p i = 1) :
+    HasSum (multinomialPmf n p) 1 := multinomial_normalised n p hp
+example : HasSum (multinomialPmf 4 ![1 / 5, 1 / 2, 3 / 10]) 1 :=
+  C13_multinomial_normalised 4 _ (by simp [Fin.sum_univ_three]; norm_num)
+
+/-- the same as a finite sum over the count vectors with total n -/
+theorem C13_multinomial_normalised_finset {m : ℕ} (n : ℕ) (p : Fin m → ℝ) (hp : ∑ i, p i = 1) :
+    ∑ k ∈ Finset.piAntidiag Finset.univ n, multinomialPmf n p k = 1 :=
+  multinomial_normalised_finset n p hp
+
+/-- two categories: binomial(n, p) -/
+theorem C13_multinomial_param_binomial (n : ℕ) (p : ℝ) (k : ℕ) (hk : k ≤ n) :
+    multinomialPmf n ![p, 1 - p] ![k, n - k] = binomialPmf n p k :=
+  multinomial_two_eq_binomial n p k hk
+
+theorem C13_multinomial_nonneg {m : ℕ} (n : ℕ) (p : Fin m → ℝ) (hp : ∀ i, 0 ≤ p i)
+    (k : Fin m → ℕ) : 0 ≤ multinomialPmf n p k := multinomialPmf_nonneg n p hp k
+
+/-- zipf(power s): P(k) = k^{−s}/ζ(s) on k = 1, 2, … (ζ = Mathlib's Riemann zeta) -/
+theorem C13_zipf_normalised (s : ℝ) (hs : 1 < s) : HasSum (zipfPmf s) 1 := zipf_normalised s hs
+example : HasSum (zipfPmf (5 / 2)) 1 := C13_zipf_normalised _ (by norm_num)
+
+/-- the normalising constant is the Dirichlet series Σ_{n ≥ 1} n^{−s} -/
+theorem C13_zipf_param_zeta (s : ℝ) (hs : 1 < s) :
+    (riemannZeta (s : ℂ)).re = ∑' n : ℕ, 1 / (n : ℝ) ^ s := zeta_re_eq_tsum s hs
+
+theorem C13_zipf_nonneg (s : ℝ) (hs : 1 < s) (k : ℕ) : 0 ≤ zipfPmf s k := zipfPmf_nonneg s hs k
+
+/-! ## Part 4: multivariate normal (Proofs/DistSpec4.lean) -/
+
+/-- multivariate_normal(loc μ, covariance_matrix Σ):
+(2π)^{−k/2} |det Σ|^{−1/2} exp(−½ (x−μ)ᵀ Σ⁻¹ (x−μ)) has total mass one on ℝ^k for every positive
+definite Σ -/
+theorem C13_multivariate_normal_normalised {k : ℕ} (μ : Fin k → ℝ)
+    (S : Matrix (Fin k) (Fin k) ℝ) (hS : S.PosDef) :
+    ∫⁻ x, ENNReal.ofReal (multivariateNormalPdf μ S x) = 1 := multivariateNormal_normalised μ S hS
+example : (Matrix.diagonal ![1, 2] : Matrix (Fin 2) (Fin 2) ℝ).PosDef :=
+  Matrix.PosDef.diagonal (by intro i; fin_cases i <;> simp)
+example : ((!![1, 3 / 5; 0, 1] : Matrix (Fin 2) (Fin 2) ℝ).transpose * !![1, 3 / 5; 0, 1]).PosDef := by
+  apply Matrix.PosDef.conjTranspose_mul_self
+  apply Matrix.mulVec_injective_of_isUnit
+  exact (Matrix.isUnit_iff_isUnit_det (!![1, 3 / 5; 0, 1] : Matrix (Fin 2) (Fin 2) ℝ)).mpr
+    (by simp [Matrix.det_fin_two])
+
+/-- the matrix argument is a COVARIANCE: diag(σ_i²) gives independent normal(μ_i, σ_i) -/
+theorem C13_multivariate_normal_param_diagonal {k : ℕ} (μ σ : Fin k → ℝ) (hσ : ∀ i, 0 < σ i)
+    (x : Fin k → ℝ) :
+    multivariateNormalPdf μ (Matrix.diagonal fun i => σ i ^ 2) x =
+      ∏ i, normalPdf (μ i) (σ i) (x i) := multivariateNormal_diagonal μ σ hσ x
+
+theorem C13_multivariate_normal_nonneg {k : ℕ} (μ : Fin k → ℝ) (S : Matrix (Fin k) (Fin k) ℝ)
+    (x : Fin k → ℝ) : 0 ≤ multivariateNormalPdf μ S x := multivariateNormalPdf_nonneg μ S x
+
+/-! ## Part 5: dirichlet (Proofs/DistSpec5.lean) -/
+
+/-- dirichlet(concentration α), α : Fin (n+1) → ℝ all positive:
+Γ(Σα)/∏Γ(α_i) ∏ x_i^{α_i−1} has total mass one on the probability simplex, charted by its first n
+coordinates (last coordinate 1 − Σ y) with Lebesgue measure in the chart (TFP / scipy convention) -/
+theorem C13_dirichlet_normalised {n : ℕ} (α : Fin (n + 1) → ℝ) (hα : ∀ i, 0 < α i) :
+    ∫⁻ y in {y : Fin n → ℝ | (∀ i, 0 < y i) ∧ ∑ i, y i < 1},
+      ENNReal.ofReal (dirichletPdf α (Fin.snoc y (1 - ∑ i, y i))) = 1 := dirichlet_normalised α hα
+example : ∫⁻ y in {y : Fin 2 → ℝ | (∀ i, 0 < y i) ∧ ∑ i, y i < 1},
+    ENNReal.ofReal (dirichletPdf ![3 / 2, 2, 4 / 5] (Fin.snoc y (1 - ∑ i, y i))) = 1 :=
+  C13_dirichlet_normalised _ (by intro i; fin_cases i <;> simp)
+
+/-- two components: dirichlet(a, b) at (t, 1−t) = beta(concentration1 a, concentration0 b) at t -/
+theorem C13_dirichlet_param_beta (a b t : ℝ) (ht : 0 < t ∧ t < 1) :
+    dirichletPdf ![a, b] ![t, 1 - t] = betaPdf a b t := dirichlet_two_eq_beta a b t ht
+
+theorem C13_dirichlet_nonneg {k : ℕ} (α x : Fin k → ℝ) (hα : ∀ i, 0 < α i) (hx : ∀ i, 0 ≤ x i) :
+    0 ≤ dirichletPdf α x := dirichletPdf_nonneg α x hα hx
 
 end Genjax.DistSpec
